@@ -4,6 +4,7 @@ c_a  == <<"/", "a">>
 c_ab == <<"/", "a", "/", "b">>
 c_aab == <<"/", "a", "b">>
 A_Cmds == {c_a, c_ab, c_aab}
+A_Cmds2 == {c_ab, c_aab}
 Acc(S) == [k \in 1..4 |-> (k - 1) \in S]
 A_Pols == {<<>>, <<Acc({0})>>}
 A_Inv == [iss : {"A", "B", "M"}, sub : {"A"}, aud : {None, "M"}, cmd : {c_ab, c_aab}, arg : {0, 1}, exp : {-1}, hook : {"none"}, irr : {0}]
